@@ -387,7 +387,7 @@ def check(timeout=300, **kw):
     r = str(s.check())
     dt = time.time() - t0
     rows.append({"name": "IM:inductive-step(all closed L, all M), T=%d" % T, "got": r, "s": round(dt, 2)})
-    res = {"queries": 1, "solver_s": round(dt, 2), "validated": validated, "nontrivial": 1,
+    res = {"queries": 1 + validated, "solver_s": round(dt, 2), "validated": validated, "nontrivial": 1 + validated,
            "samples": [{"modules": mods, "events": {m: len(progs[m]["events"]) for m in mods}, "unroll": T}]}
     if r == "sat":
         mdl = s.model()
@@ -404,7 +404,8 @@ def check(timeout=300, **kw):
     t0 = time.time()
     r2 = str(s.check())
     rows.append({"name": "IM:premises", "got": r2, "s": round(time.time() - t0, 2)})
-    res["queries"] = 2
+    res["queries"] = 2 + validated
+    res["nontrivial"] = 2 + validated
     res["solver_s"] = round(res["solver_s"] + time.time() - t0, 2)
     res["query_log"] = rows
     if disagreements:
